@@ -1128,6 +1128,7 @@ def PNode.bl2 (ctx : Ctx) : PNode → Bool
   | .map true st c es => (PNode.map true st c es).fl2
   | .null v => !(ctx == .root && v % 5 == 4)
   | .str s (.literal ch ind ex) => ctx != .root && strOk false false s (.literal ch ind ex)
+  | .str s (.folded ch ind ex fo) => ctx != .root && strOk false false s (.folded ch ind ex fo)
   | x => x.sc2 false
 def PItems.bl2 : PItems → Bool
   | .nil => true
@@ -1143,6 +1144,7 @@ def PNode.isInline2 : PNode → Bool
   | .seq false _ _ _ => false
   | .map false _ _ _ => false
   | .str _ (.literal _ _ _) => false
+  | .str _ (.folded _ _ _ _) => false
   | _ => true
 
 /-- `valueR` of an inline value without trailing comment. -/
@@ -1172,7 +1174,7 @@ theorem valueR_inline (x : PNode) (ctx : Ctx) (h : x.bl2 ctx = true) (hi : x.isI
     | single => simp [PNode.valueR, PNode.flow, strFlowText, sqText, ht, trailText]
     | double sh eu => simp [PNode.valueR, PNode.flow, strFlowText, dqText, ht, trailText]
     | literal ch ind ex => simp [PNode.isInline2] at hi
-    | folded ch ind ex fo => simp [PNode.bl2, PNode.sc2] at h
+    | folded ch ind ex fo => simp [PNode.isInline2] at hi
   | seq fl st c items =>
     cases fl with
     | true => simp [PNode.valueR, PNode.flow, ht, trailText]
@@ -1207,7 +1209,7 @@ theorem okc_inline2 (x : PNode) (ctx : Ctx) (h : x.bl2 ctx = true) (hi : x.isInl
     | plain => exact (scalarFacts false (.str s .plain) (by simpa [PNode.bl2] using h) (by intros; simp) (by intros; simp)).ok
     | single => exact (scalarFacts false (.str s .single) (by simpa [PNode.bl2] using h) (by intros; simp) (by intros; simp)).ok
     | double sh eu => exact (scalarFacts false (.str s (.double sh eu)) (by simp [PNode.sc2]) (by intros; simp) (by intros; simp)).ok
-    | folded ch ind ex fo => simp [PNode.bl2, PNode.sc2] at h
+    | folded ch ind ex fo => simp [PNode.isInline2] at hi
   | anchored a n => simp [PNode.bl2, PNode.sc2] at h
   | alias a t => simp [PNode.bl2, PNode.sc2] at h
 
@@ -1343,7 +1345,18 @@ theorem canon_value : (x : PNode) → ∀ ctx, x.bl2 ctx = true → ∀ (e col :
         exact hdr_okc '|' (by decide) ex ind ch h9
       · intro l hl
         exact bsLines_canon _ _ (body_lines_printable ch s hlines hch) l hl
-    case folded ch ind ex fo => simp [PNode.bl2, PNode.sc2] at h
+    case folded ch ind ex fo =>
+      simp only [PNode.bl2, Bool.and_eq_true] at h
+      have hs := h.2
+      simp only [strOk, Bool.not_false, Bool.true_and, Bool.and_eq_true, decide_eq_true_eq, Bool.false_eq_true, if_false,
+        bne_iff_ne, ne_eq] at hs
+      obtain ⟨⟨⟨⟨⟨⟨⟨⟨⟨hind, h9⟩, hlines⟩, hch⟩, hex⟩, hroot⟩, hsp⟩, hhead⟩, hf⟩, _⟩ := hs
+      simp only [PNode.valueR, ht, trailText, List.append_nil]
+      refine ⟨Or.inr (by simp [spaces, List.replicate_succ]), ?_, ?_⟩
+      · rw [List.all_append, okc_spaces, Bool.true_and]
+        exact hdr_okc '>' (by decide) ex ind ch h9
+      · intro l hl
+        exact bsLines_canon _ _ (fun l hl => (folded_lines_ok fo ch s hch hlines hsp hhead hf l hl).2) l hl
     all_goals (
       rw [valueR_inline _ ctx h rfl e col m ht]
       have hok := okc_inline2 _ ctx h rfl
@@ -1692,7 +1705,7 @@ theorem inline2_value (x : PNode) (ctx : Ctx) (h : x.bl2 ctx = true) (hi : x.isI
       obtain ⟨h1, h2, h3⟩ := inline_dq sh eu s
       exact ⟨⟨'"', _, rfl, by decide, by decide, by decide, by decide, by decide, by decide⟩, h1, h2, h3⟩
     | literal ch ind ex => simp [PNode.isInline2] at hi
-    | folded ch ind ex fo => simp [PNode.bl2, PNode.sc2] at h
+    | folded ch ind ex fo => simp [PNode.isInline2] at hi
   | anchored a n => simp [PNode.bl2, PNode.sc2] at h
   | alias a t => simp [PNode.bl2, PNode.sc2] at h
 
@@ -1887,7 +1900,7 @@ theorem node_of_empty_flow (x : PNode) (ctx : Ctx) (h : x.bl2 ctx = true) (hi : 
     | single => simp [PNode.flow, strFlowText, sqText] at he
     | double sh eu => simp [PNode.flow, strFlowText, dqText] at he
     | literal ch ind ex => simp [PNode.isInline2] at hi
-    | folded ch ind ex fo => simp [PNode.bl2, PNode.sc2] at h
+    | folded ch ind ex fo => simp [PNode.isInline2] at hi
   | seq fl st c items => cases fl <;> simp [PNode.flow, PNode.isInline2] at he hi
   | map fl st c es => cases fl <;> simp [PNode.flow, PNode.isInline2] at he hi
   | anchored a n => simp [PNode.bl2, PNode.sc2] at h
@@ -2001,7 +2014,17 @@ theorem afterL : (x : PNode) → ∀ (ctx : Ctx), x.bl2 ctx = true → ∀ (e co
       have e1 : (if ctx = Ctx.root then 0 else e + 1) = pnOf ctx e := rfl
       rw [e1]
       exact ⟨rest.dropWhile blankL, this, skipFill_dropBlank rest⟩
-    case folded ch ind ex fo => simp [PNode.bl2, PNode.sc2] at h
+    case folded ch ind ex fo =>
+      simp only [PNode.bl2, Bool.and_eq_true, bne_iff_ne, ne_eq] at h
+      obtain ⟨f', rfl⟩ : ∃ f', f = f' + 1 := ⟨f - 1, by simp [PNode.bneed] at hf; omega⟩
+      have hpn : pnOf ctx e = e + 1 := by simp [pnOf, h.1]
+      have hk : (PNode.str s (.folded ch ind ex fo)).endsKeep = (ch == .keep) := by cases ch <;> rfl
+      rw [hk] at hT
+      have := after_folded f' m.gap col (pnOf ctx e) e (ctx == .seq) (ctx == .map) s ch ind ex fo hpn h.2 rest hT
+      simp only [PNode.valueR, ht, trailText, List.append_nil, PNode.node]
+      have e1 : (if ctx = Ctx.root then 0 else e + 1) = pnOf ctx e := rfl
+      rw [e1]
+      exact ⟨rest.dropWhile blankL, this, skipFill_dropBlank rest⟩
     all_goals exact afterL_inline _ ctx h rfl e col m ht f rest (by simpa [PNode.bneed] using hf) hb
   | .anchored a n, ctx, h, _, _, _, _, _, _, _, _, _, _, _ => by simp [PNode.bl2, PNode.sc2] at h
   | .alias a t, ctx, h, _, _, _, _, _, _, _, _, _, _, _ => by simp [PNode.bl2, PNode.sc2] at h
@@ -2263,7 +2286,7 @@ theorem resolveB : (x : PNode) → ∀ ctx, x.bl2 ctx = true → ∀ env, x.node
   | .str s st, ctx, h, env => by
     cases st
     case literal ch ind ex => simp [PNode.node, Node.resolve, resolveScalar, PNode.tree]; rfl
-    case folded ch ind ex fo => simp [PNode.bl2, PNode.sc2] at h
+    case folded ch ind ex fo => simp [PNode.node, Node.resolve, resolveScalar, PNode.tree]; rfl
     all_goals exact (scalarFacts false _ (by simpa [PNode.bl2] using h) (by intros; simp) (by intros; simp)).res env
   | .seq true st c items, ctx, h, env => resolveNode2 _ (by simpa [PNode.bl2] using h) env
   | .map true st c es, ctx, h, env => resolveNode2 _ (by simpa [PNode.bl2] using h) env
@@ -2481,7 +2504,16 @@ theorem nm_value : (x : PNode) → ∀ ctx, x.bl2 ctx = true → ∀ (e col : Na
       simp only [PNode.valueR, h.1, if_false]
       intro l hl
       exact bsLines_notMark _ (by simp at hind; omega) _ (body_lines_ok ch s hlines hch) l hl
-    case folded ch ind ex fo => simp [PNode.bl2, PNode.sc2] at h
+    case folded ch ind ex fo =>
+      simp only [PNode.bl2, Bool.and_eq_true, bne_iff_ne, ne_eq] at h
+      have hs := h.2
+      simp only [strOk, Bool.not_false, Bool.true_and, Bool.and_eq_true, decide_eq_true_eq, Bool.false_eq_true, if_false,
+        bne_iff_ne, ne_eq] at hs
+      obtain ⟨⟨⟨⟨⟨⟨⟨⟨⟨hind, h9⟩, hlines⟩, hch⟩, hex⟩, hroot⟩, hsp⟩, hhead⟩, hf⟩, _⟩ := hs
+      simp only [PNode.valueR, h.1, if_false]
+      intro l hl
+      exact bsLines_notMark _ (by omega) _
+        (fun l hl => bodyOk_of_headOk l (folded_lines_ok fo ch s hch hlines hsp hhead hf l hl).1) l hl
     all_goals (rw [valueR_inline _ ctx h rfl e col m ht]; simp)
   | .anchored a n, ctx, h, _, _, _, _ => by simp [PNode.bl2, PNode.sc2] at h
   | .alias a t, ctx, h, _, _, _, _ => by simp [PNode.bl2, PNode.sc2] at h
@@ -2657,7 +2689,7 @@ theorem docLines_head (x : PNode) (g : Nat) (h : x.bl2 .root = true) :
         | single => simp [PNode.flow, strFlowText, sqText] at hx
         | double sh eu => simp [PNode.flow, strFlowText, dqText] at hx
         | literal ch ind ex => simp [PNode.isInline2] at hi
-        | folded ch ind ex fo => simp [PNode.bl2, PNode.sc2] at h
+        | folded ch ind ex fo => simp [PNode.isInline2] at hi
       | seq fl st c items => cases fl <;> simp [PNode.flow, PNode.isInline2] at hx hi
       | map fl st c es => cases fl <;> simp [PNode.flow, PNode.isInline2] at hx hi
       | anchored a n => simp [PNode.bl2, PNode.sc2] at h
@@ -2690,7 +2722,7 @@ theorem docLines_head (x : PNode) (g : Nat) (h : x.bl2 .root = true) :
         | single => simp [PNode.flow, strFlowText, sqText] at hx
         | double sh eu => simp [PNode.flow, strFlowText, dqText] at hx
         | literal ch ind ex => simp [PNode.isInline2] at hi
-        | folded ch ind ex fo => simp [PNode.bl2, PNode.sc2] at h
+        | folded ch ind ex fo => simp [PNode.isInline2] at hi
       | seq fl st c items => cases fl <;> simp [PNode.flow, PNode.isInline2] at hx hi
       | map fl st c es => cases fl <;> simp [PNode.flow, PNode.isInline2] at hx hi
       | anchored a n => simp [PNode.bl2, PNode.sc2] at h
@@ -2791,7 +2823,7 @@ theorem docLines_notMark (x : PNode) (g : Nat) (h : x.bl2 .root = true) : ∀ l 
         | single => exact ⟨by simp [PNode.flow, strFlowText, sqText, e1, List.isPrefixOf], by simp [PNode.flow, strFlowText, sqText, e2, List.isPrefixOf]⟩
         | double sh eu => exact ⟨by simp [PNode.flow, strFlowText, dqText, e1, List.isPrefixOf], by simp [PNode.flow, strFlowText, dqText, e2, List.isPrefixOf]⟩
         | literal ch ind ex => simp [PNode.isInline2] at hi
-        | folded ch ind ex fo => simp [PNode.bl2, PNode.sc2] at h
+        | folded ch ind ex fo => simp [PNode.isInline2] at hi
       | seq fl st c items =>
         cases fl with
         | true => exact ⟨by simp [PNode.flow, e1, List.isPrefixOf], by simp [PNode.flow, e2, List.isPrefixOf]⟩
